@@ -199,6 +199,8 @@ func (env *Env) instrEffects(sc *Script, fn *ssa.Function, in ssa.Instruction, e
 		env.callEffects(sc, fn, &x.Call, e, g)
 	case *ssa.Defer:
 		env.callEffects(sc, fn, &x.Call, e, g)
+	case *ssa.Go:
+		env.callEffects(sc, fn, &x.Call, e, g)
 	}
 }
 
